@@ -939,8 +939,18 @@ class Run:
     d = xarray_utils.xarray_to_primitive_equations_with_time_data(ds, tracers_to_include=names)
     return primitive_equations.StateWithTime(**d)
 
+  def ambiguous_layout(self):
+    g = self.sut.coords.horizontal
+    return tuple(g.modal_shape) == tuple(g.nodal_shape)
+
   def ev_checkpoint(self, i, ev):
     sut = self.sut
+    if self.ambiguous_layout():
+      # data_to_xarray infers dimension names from array shapes; a (padded) layout
+      # whose modal and nodal shapes coincide is outside its domain - a user has
+      # to save on an unpadded layout there. Counted, not checkpointed.
+      self.probe('checkpoint_skipped_ambiguous_layout')
+      return
     rs = np.random.RandomState(ev['ds'])
     slices = state_slices(sut.state)
     cid = self.ckpt_seq
@@ -1066,6 +1076,9 @@ class Run:
   def output_chunk(self, i, frames, outer):
     """Trajectory frames through the restructuring codecs and a time-axis dataset."""
     sut = self.sut
+    if self.ambiguous_layout():
+      self.probe('checkpoint_skipped_ambiguous_layout')
+      return
     self.probe('output_chunk')
     try:
       fr = frames
